@@ -300,6 +300,54 @@ func checkC15(c *Ctx) {
 	}
 	R.min("C15.home", 3)
 
+	// the home module of an imported name is recorded under the slot of the symbol just declared (localCount-1 after the
+	// declaration): one off and the first imported name has no home module while later ones inherit the previous one's
+	if f := u.ssaFunc("pkg/runtime", "Scope.DeclareExternalValue"); f != nil {
+		okKey, nMU := true, 0
+		for _, in := range instrsOf(f) {
+			mu, ok := in.(*ssa.MapUpdate)
+			if !ok || containerFieldOf(mu.Map) != "Scope.externalRefs" {
+				continue
+			}
+			nMU++
+			base, off := lin(mu.Key)
+			if _, isCnt := fieldLoad(base, "localCount"); base == nil || !isCnt || off != -1 {
+				okKey = false
+			}
+			// and the declaration precedes it
+			decl := u.callsNamed(f, "pkg/runtime.Scope.declareValue")
+			if len(decl) != 1 || !dominatesInstr(decl[0], mu) {
+				okKey = false
+			}
+		}
+		R.check(okKey && nMU == 1, "C15.const", "pkg/runtime.Scope.DeclareExternalValue:slot", u.pos(f.Pos()), "externalRefs[localCount-1] after the declaration", "the home module of an imported name is not recorded under the slot of the symbol just declared: imported methods run in the wrong module")
+	} else {
+		R.lost("C15.const", "pkg/runtime.Scope.DeclareExternalValue")
+	}
+	// VM.CheckDepedency: when the module is already known, no answer is given before the graph was searched
+	if f := u.ssaFunc("pkg/runtime", "VM.CheckDepedency"); f != nil {
+		okC := false
+		checks := u.callsNamed(f, "pkg/runtime.ModuleGraph.CheckCircularDepedency")
+		ids := u.callsNamed(f, "pkg/runtime.ModuleGraph.GetIDFromName")
+		if len(checks) == 1 && len(ids) == 1 {
+			// the test of `exists`: its true edge must reach a return only through the cycle test
+			for _, b := range f.Blocks {
+				ifi, isIf := b.Instrs[len(b.Instrs)-1].(*ssa.If)
+				if !isIf {
+					continue
+				}
+				ex, isEx := ifi.Cond.(*ssa.Extract)
+				if !isEx || ex.Tuple != ids[0].Value() || ex.Index != 1 {
+					continue
+				}
+				okC = reachableAvoiding(b.Succs[0], 0, func(x ssa.Instruction) bool { _, r := x.(*ssa.Return); return r }, func(x ssa.Instruction) bool { return x == ssa.Instruction(checks[0]) }) == nil
+			}
+		}
+		R.check(okC, "C15.edge", "pkg/runtime.VM.CheckDepedency:known-module-is-searched", u.pos(f.Pos()), "for a module that is already known every answer comes after the cycle search", "for an already known module an answer can be given without searching the import graph (a shortcut on module ids): a module importing itself, or a cycle closed through it, goes unreported")
+	} else {
+		R.lost("C15.edge", "pkg/runtime.VM.CheckDepedency")
+	}
+
 	// the cycle test answers for the whole import graph: no shortcut answers "no cycle" without searching
 	if g := u.ssaFunc("pkg/runtime", "ModuleGraph.CheckCircularDepedency"); g != nil {
 		shortcut := ""
@@ -541,6 +589,58 @@ func checkC17(c *Ctx) {
 		}
 	}
 	R.min("C17.propagate", 5)
+
+	// ---- C17.api: a whole source is read with ReadAll (the only entry that rejects an undecoded remainder at the end
+	// of input); the block-wise Read is not used outside pkg/io
+	nOutside := 0
+	for _, rel := range corePkgs {
+		if rel == "pkg/io" {
+			continue
+		}
+		for _, g := range u.srcFuncs(rel) {
+			for _, cs := range u.callsNamed(g, "pkg/io.FileStream.Read", "pkg/io.ByteStream.Read") {
+				nOutside++
+				R.viol("C17.api", u.fname(g)+":"+siteName(u, g, cs), u.pos(cs.Pos()), "a source is read with the block-wise Read instead of ReadAll: bytes left undecoded at the end of input (an incomplete or invalid sequence) are dropped silently")
+			}
+		}
+	}
+	if nOutside == 0 {
+		R.hold("C17.api", "block-wise-Read-stays-inside-pkg/io", "", "no caller of FileStream.Read / ByteStream.Read outside pkg/io: whole sources go through ReadAll")
+	}
+	// the stream reads the file itself: nothing that limits, skips or rewrites bytes is put between the file and the decoder
+	if g := u.ssaFunc("pkg/io", "NewFileStream"); g != nil {
+		okR, nSt := true, 0
+		why := ""
+		for _, in := range instrsOf(g) {
+			st, ok := in.(*ssa.Store)
+			if !ok {
+				continue
+			}
+			fa, ok := st.Addr.(*ssa.FieldAddr)
+			if !ok || fieldAddrName(fa) != "FileStream.reader" {
+				continue
+			}
+			nSt++
+			for _, src := range allSources(st.Val) {
+				switch x := src.(type) {
+				case *ssa.Extract:
+					if cv, isC := x.Tuple.(*ssa.Call); !isC || (u.callName(cv) != "os.Open" && u.callName(cv) != "os.OpenFile") {
+						okR, why = false, "the reader does not come from os.Open"
+					}
+				case *ssa.Call:
+					n := u.callName(x)
+					if n != "bufio.NewReader" && n != "bufio.NewReaderSize" {
+						okR, why = false, "the file is wrapped by "+n
+					}
+				default:
+					okR, why = false, "the reader is not the opened file"
+				}
+			}
+		}
+		R.check(okR && nSt == 1, "C17.api", "pkg/io.NewFileStream:reader", u.pos(g.Pos()), "the stream's reader is the opened file (optionally buffered)", "the stream does not read the opened file directly ("+why+"): a wrapper that limits or filters the bytes truncates or alters the program silently")
+	} else {
+		R.lost("C17.api", "pkg/io.NewFileStream")
+	}
 
 	// ---- C17.reject at end of input + C17.carry + C17.bom + C17.loop
 	if g := u.ssaFunc("pkg/io", "FileStream.ReadAll"); g != nil {
